@@ -21,7 +21,9 @@ ASSUMPTIONS = ["|h_i| <= 2 s1 a_i bounds the index box (true for every lattice)"
                "shell bounds are >= 1e-5 (relative) away from every lattice-point value by construction",
                "extinction rules with a period larger than the largest index reached would be invisible (none exist beyond 6)"]
 
-SHELLS = {"quick": [(0.0, 0.62), (0.21, 0.45)], "thorough": [(0.0, 0.86), (0.21, 0.62), (0.0, 0.43), (0.3, 0.47)]}
+# the last shell of each tier is thin and far out: it holds only high-index reflections (|h| up to 10-15), where
+# collisions of a hash-like de-duplication key or an index overflow would first show
+SHELLS = {"quick": [(0.0, 0.62), (0.21, 0.45), (0.94, 1.02)], "thorough": [(0.0, 0.86), (0.21, 0.62), (0.0, 0.43), (0.3, 0.47), (1.17, 1.25)]}
 SMALL = {"quick": (0.0, 0.30), "thorough": (0.0, 0.37)}
 
 
